@@ -828,12 +828,29 @@ fn run_search(w: &World, st: &[String]) -> String {
     macro_rules! terminal {
         ($b:expr) => {{
             let mut b = $b;
+            // a configured search object may be run again where the terminal method takes a plain `&mut self`
+            // (search_path of every algorithm): it must give the same answer
+            macro_rules! again {
+                ($first:expr, $second:expr) => {{
+                    let first = $first;
+                    if meth == Meth::None {
+                        let second = $second;
+                        if second != first {
+                            format!("{} REUSED-OBJECT-ANSWERS {}", first, second)
+                        } else {
+                            first
+                        }
+                    } else {
+                        first
+                    }
+                }};
+            }
             match what {
                 "find" => match b.search() {
                     Some(n) => format!("r node {}", n.key()),
                     None => "r none".to_string(),
                 },
-                "path" => fmt_path!(b.search_path()),
+                "path" => again!(fmt_path!(b.search_path()), fmt_path!(b.search_path())),
                 "cycle" => fmt_path!(b.search_cycle()),
                 _ => "bad-what".to_string(),
             }
@@ -897,10 +914,25 @@ fn run_search(w: &World, st: &[String]) -> String {
                 b = b.transpose();
             }
             let mut b = with_method!(b, meth, &mut ff, &mut fe);
-            match what {
-                "nodes" => fmt_nodes(b.search_nodes()),
-                "edges" => fmt_edges(b.search_edges()),
-                _ => "bad-what".to_string(),
+            macro_rules! once {
+                () => {
+                    match what {
+                        "nodes" => fmt_nodes(b.search_nodes()),
+                        "edges" => fmt_edges(b.search_edges()),
+                        _ => "bad-what".to_string(),
+                    }
+                };
+            }
+            let first = once!();
+            if meth == Meth::None {
+                let second = once!();
+                if second != first {
+                    format!("{} REUSED-OBJECT-ANSWERS {}", first, second)
+                } else {
+                    first
+                }
+            } else {
+                first
             }
         }};
     }
